@@ -269,7 +269,12 @@ func Generate(r *vlib.Rng, p Profile) *Doc {
 		for i, n := 0, r.Range(1, 4); i < n; i++ {
 			var rule Rule
 			for j, m := 0, vlib.Pick(r, []int{1, 1, 1, 2}); j < m; j++ {
-				rule.Sels = append(rule.Sels, g.sel())
+				s := g.sel()
+				if s == (Sel{}) { // the universal selector cannot be written in a list
+					rule.Sels = []Sel{s}
+					break
+				}
+				rule.Sels = append(rule.Sels, s)
 			}
 			for j, m := 0, r.Range(1, 3); j < m; j++ {
 				rule.Decls = append(rule.Decls, g.decl())
